@@ -22,6 +22,10 @@ CHECKS = {
          "Exploration: every history of length <=5 (quick: 4) over <=4 contexts, 3 keys (one a built-in helper name), values {1,2,nil} and 6 root constructors is executed against the real Context and a reference model, comparing Value and Has for every (context,key) pair after every step; plus thousands of random histories of up to 300 operations.",
          "Sequential histories only; functions compared by code pointer.",
          "DESIGN.md §4 C10"),
+ "C06": ("exhaustive depth<=2 expression trees + rapid type-directed trees to depth 5; independent reference evaluator (math/big integers), three parenthesisations, recorded evaluation order",
+         "Exploration: every leaf pair x operator, every depth-2 tree in both association shapes over mixed and homogeneous leaf pools, and >100k random type-directed trees are rendered with minimal and full parentheses; the captured typed value, the operand evaluation order and error-ness must equal an independent reference evaluator built from the property statement.",
+         "The reference evaluator is the trusted base; cases whose meaning the statement does not fix are counted as excluded:unspecified.",
+         "DESIGN.md §4 C06"),
 }
 
 NOT_BUILT = "check not built yet in this session (see DESIGN.md §4 for its plan); will be claimed once its check is committed"
